@@ -4,6 +4,7 @@ from __future__ import annotations
 
 import ast
 import copy
+import re
 
 from ..cfg import cfg_of
 from ..model import AnalysisError, call_name, calls_in, dotted, norm, walk_no_nested
@@ -95,12 +96,19 @@ def check_tables(ctx):
         ctx.ob("C14.T1", hook.qualname, not dropped, "the registration guards hold for all 15 item classes" if not dropped else
                f"the registration guards exclude {dropped}: Item.decode / from_sml cannot find the class for that format code or mnemonic (nested lists no longer decode)", key="registered-all", where=hook.where)
     dec = repo.method("Item", "decode", inherited=False)
-    ok = any(norm(s.value) == "cls._subclasses_by_hsms[data_type].decode(data)" for s in rules.func_stmts(dec.node) if isinstance(s, ast.Return)) and any(
-        isinstance(s, ast.Raise) for s in rules.func_stmts(dec.node))
+    from .. import normal as _normal, summary as _summary
+
+    dfn, _ = _normal.normalise(repo, dec, keep={"_decode_peek_item_type"}, comps=False, ifexp=False)
+    dparam = dfn.args.args[1].arg
+    code = f"cls._decode_peek_item_type({dparam})"
+    dpaths = _summary.summarise(dfn)
+    ok = any(p_.kind == "return" and p_.value == f"cls._subclasses_by_hsms[{code}].decode({dparam})" and (f"{code} in cls._subclasses_by_hsms", True) in p_.conds for p_ in dpaths) \
+        and any(p_.kind == "raise" and (f"{code} in cls._subclasses_by_hsms", False) in p_.conds for p_ in dpaths) \
+        and not any(p_.kind == "return" and (f"{code} in cls._subclasses_by_hsms", False) in p_.conds for p_ in dpaths)
     ctx.ob("C14.T1", dec.qualname, ok, "Item.decode dispatches on the format code and refuses unknown codes" if ok else "Item.decode does not dispatch on the peeked format code", where=dec.where)
     peek = repo.method("Item", "_decode_peek_item_type", inherited=False)
     rets = [s for s in rules.func_stmts(peek.node) if isinstance(s, ast.Return)]
-    ok = len(rets) == 1 and norm(rets[0].value) in ("(data.peek() & 252) >> 2", "data.peek() >> 2")
+    ok = len(rets) == 1 and rules.expand(peek.node, rets[0].value) in ("(data.peek() & 252) >> 2", "data.peek() >> 2")
     ctx.ob("C14.T1", peek.qualname, ok, "the dispatch code is bits 7-2 of the first byte" if ok else f"peeked type is `{norm(rets[0].value) if rets else None}`", where=peek.where)
 
 
@@ -146,31 +154,56 @@ def check_from_value(ctx):
     f = repo.method("Item", "from_value", inherited=False)
     ctx.touch(f)
     q = f.qualname
-    cfg = cfg_of(f.node)
-    order = []
-    for n in cfg.nodes:
-        if n.kind == "test" and isinstance(n.ast, ast.Call) and call_name(n.ast) == "isinstance":
-            order.append(norm(n.ast.args[1]))
-    ok = "bool" in order and "int" in order and order.index("bool") < order.index("int")
-    ctx.ob("C14.P2", q, ok, "bool is tested before int (bool is a subclass of int)" if ok else f"isinstance order {order}: True/False would become U1 1/0 instead of BOOLEAN", key="bool-before-int", where=f.where)
+    from .. import inline, normal, summary
+
+    # on the path summary of the function with its private dispatch helpers inlined: which constructor answers which type
+    # test, whatever the spelling (elif chain with a result local, early returns, an extracted helper)
+    fn, used = normal.normalise(repo, f, keep={"_from_value_float", "_from_value_int"}, comps=False, ifexp=False)
+    for h in used:
+        ctx.touch(h)
+    cfg = cfg_of(inline.expanded(ctx, f, keep={"_from_value_float", "_from_value_int"}))
+    vparam = fn.args.args[1].arg
     want = {"list": "L", "str": "A", "bytes": "B", "bool": "BOOLEAN"}
-    got = {}
-    for n in cfg.real_nodes():
-        if isinstance(n.ast, ast.Assign) and norm(n.ast.targets[0]) == "result" and isinstance(n.ast.value, ast.Call):
-            conds = [norm(t.args[1]) for t, v in cfg.dominating_conditions(n) if v and isinstance(t, ast.Call) and call_name(t) == "isinstance"]
-            fn = n.ast.value.func
-            if conds and isinstance(fn, ast.Subscript) and norm(fn.value) == "cls._subclasses_by_sml" and isinstance(fn.slice, ast.Constant):
-                got[conds[-1]] = fn.slice.value
-            elif conds:
-                got[conds[-1]] = call_name(n.ast.value)
-    ok = all(got.get(k) == v for k, v in want.items()) and got.get("float") == "cls._from_value_float" and got.get("int") == "cls._from_value_int"
-    ctx.ob("C14.P2", q, ok, "list->L, str->A, bytes->B, bool->BOOLEAN, float/int -> width selection" if ok else f"from_value dispatch table is {got}", key="dispatch", where=f.where)
-    # result returned by identity
-    truthy = [n for n in cfg.nodes if n.kind == "test" and cnd.canon(n.ast, True) in ({("result", True)}, {("result", False)})]
+    got, int_paths = {}, []
+    for path in summary.summarise(fn):
+        if path.kind != "return" or not path.value:
+            continue
+        pos = [t for t, pol in path.conds if pol and t.startswith(f"isinstance({vparam}, ")]
+        neg = [t for t, pol in path.conds if not pol and t.startswith(f"isinstance({vparam}, ")]
+        val = path.value
+        for _ in range(3):  # `result if result else ...` style wrappers leave the constructor text inside
+            break
+        m = re.search(r"cls\._subclasses_by_sml\['([A-Z0-9]+)'\]\(" + re.escape(vparam) + r"\)", val)
+        res = m.group(1) if m else ("cls._from_value_float" if f"cls._from_value_float({vparam})" in val else "cls._from_value_int" if f"cls._from_value_int({vparam})" in val else None)
+        if res is None:
+            continue
+        for t in pos:
+            typ = t[len(f"isinstance({vparam}, "):-1]
+            got.setdefault(typ, set()).add(res)
+        if res == "cls._from_value_int":
+            int_paths.append((pos, neg))
+    ok = bool(int_paths) and all(f"isinstance({vparam}, bool)" in neg for pos, neg in int_paths)
+    ctx.ob("C14.P2", q, ok, "bool is excluded before int is accepted (bool is a subclass of int)" if ok else f"the integer branch is reached without excluding bool first: True/False would become U1 1/0 instead of BOOLEAN", key="bool-before-int", where=f.where)
+    flat = {k: (next(iter(v)) if len(v) == 1 else sorted(v)) for k, v in got.items()}
+    ok = all(flat.get(k) == v for k, v in want.items()) and flat.get("float") == "cls._from_value_float" and flat.get("int") == "cls._from_value_int"
+    ctx.ob("C14.P2", q, ok, "list->L, str->A, bytes->B, bool->BOOLEAN, float/int -> width selection" if ok else f"from_value dispatch table is {flat}", key="dispatch", where=f.where)
+    # result returned by identity: no truthiness test of a local that holds the created item
+    created = {t.id for n in cfg.real_nodes() if isinstance(n.ast, ast.Assign) and isinstance(n.ast.value, ast.Call) and ("_subclasses_by_sml" in norm(n.ast.value) or "_from_value_" in norm(n.ast.value))
+               for t in n.ast.targets if isinstance(t, ast.Name)}
+    changed = True
+    while changed:  # copies of such locals (the result of an inlined helper handed to the caller's local)
+        changed = False
+        for n in cfg.real_nodes():
+            if isinstance(n.ast, ast.Assign) and isinstance(n.ast.value, ast.Name) and n.ast.value.id in created:
+                for t in n.ast.targets:
+                    if isinstance(t, ast.Name) and t.id not in created:
+                        created.add(t.id)
+                        changed = True
+    truthy = [n for n in cfg.nodes if n.kind == "test" and any(cnd.canon(n.ast, True) in ({(v, True)}, {(v, False)}) for v in created)]
     defines_len = [c.name for c in [repo.cls("Item")] + repo.subclasses("Item") if "__len__" in c.methods or "__bool__" in c.methods]
     ok = not (truthy and defines_len)
     ctx.ob("C14.P2", q, ok, "a created item is always returned" if ok else
-           f"`if result:` tests the truthiness of the created item while {defines_len} define __len__/__bool__: an empty item ('' / b'' / []) is falsy, so from_value raises 'Invalid value' for valid empty values (also inside lists and when decoding)",
+           f"`{norm(truthy[0].ast)}` tests the truthiness of the created item while {defines_len} define __len__/__bool__: an empty item ('' / b'' / []) is falsy, so from_value raises 'Invalid value' for valid empty values",
            key="identity-return", where=f.where)
     g = repo.method("Item", "_from_value_int", inherited=False)
     ctx.touch(g)
